@@ -140,3 +140,69 @@ Example C01_pipeline_example :
   s_rib (run_sworld compose_example).1 !! (0, 2, bgp_wid 0 1)%N = Some (true, 5%N) /\
   rib_lookup (w_rib (run_world compose_example).1) (0, 2, 5)%N = Some (true, 5%N).
 Proof. exact compose_example_ok. Qed.
+
+(* ------------------------------------------------------------------ *)
+(* On the wire (Pipe/PipeRaw.v): the octets of an UPDATE handed to a BMP peer or a BGP
+   session are read by C04's independent decoder (the implementation's mode) and become an
+   ordinary operation of the pipeline ([raw_bmp] / [raw_bgp]), so every theorem above covers
+   histories of real UPDATEs of all four families, well-formed or not. *)
+From RV Require Import Pipe.PipeRaw Pipe.PipeRawProofs.
+From RV Require Bgp.BgpModel.
+
+(* the numbering of wire prefixes that stands for RibModel's opaque prefix ids is injective
+   over everything well-formed UPDATEs can name (and so is the family numbering) *)
+Theorem C01_wire_prefix_injective : forall u u' r r',
+  BgpModel.wf u = true -> BgpModel.wf u' = true ->
+  r ∈ ann_routes u ++ wd_routes u -> r' ∈ ann_routes u' ++ wd_routes u' -> route_code r = route_code r' -> r = r'.
+Proof. exact raw_route_code_inj. Qed.
+Print Assumptions C01_wire_prefix_injective.
+
+Theorem C01_wire_attrs_injective : forall u u', BgpModel.wf u = true -> BgpModel.wf u' = true ->
+  attrs_code (BgpModel.u_attrs u) = attrs_code (BgpModel.u_attrs u') -> BgpModel.u_attrs u = BgpModel.u_attrs u'.
+Proof. exact attrs_code_inj. Qed.
+Print Assumptions C01_wire_attrs_injective.
+
+(* what reaches the RIB for a decoded UPDATE is exactly its route events (C04_events_exact: one
+   per NLRI), the withdrawals first (RFC 4271 4.3) *)
+Theorem C01_wire_update_is_its_events : forall id u,
+  payloads_of id (upd_of_update u) =
+  map (pay_of_ev id) (List.filter is_evw (BgpModel.events u) ++ List.filter (fun e => negb (is_evw e)) (BgpModel.events u)).
+Proof. exact raw_payloads. Qed.
+Print Assumptions C01_wire_update_is_its_events.
+
+(* all or nothing: octets that do not decode change no RIB, neither the pipeline's nor the ideal one *)
+Theorem C01_wire_unparsable_is_noop : forall bytes, BgpModel.decode BgpModel.Code bytes = None ->
+  (forall w k p, w_rib (wstep w (raw_bmp k p bytes)).1 = w_rib w /\ w_ids (wstep w (raw_bmp k p bytes)).1 = w_ids w) /\
+  (forall w b, (wstep w (raw_bgp b bytes)).1 = w) /\
+  (forall sw k p, (sstep sw (raw_bmp k p bytes)).1 = sw) /\
+  (forall sw b, (sstep sw (raw_bgp b bytes)).1 = sw).
+Proof. exact raw_unparsable_noop. Qed.
+Print Assumptions C01_wire_unparsable_is_noop.
+
+(* the premise [fams_ok] of the pipeline theorems holds for every operation that comes from the wire *)
+Theorem C01_wire_families_ok : forall k p b bytes,
+  op_fams_ok (raw_bmp k p bytes) = true /\ op_fams_ok (raw_bgp b bytes) = true.
+Proof. exact raw_ops_fams_ok. Qed.
+Print Assumptions C01_wire_families_ok.
+
+(* End-of-RIB as the state machine decides it on a decoded UPDATE: routecore's test (C04's [lax_eor]),
+   in the dump phase only on an UPDATE that carries nothing (the repaired guard) *)
+Theorem C01_wire_eor_dump_phase : forall u,
+  eor_in PDump (upd_of_update u) = if BgpModel.carries_routes u then None else lax_eor_fam u.
+Proof. exact raw_eor_dump. Qed.
+Print Assumptions C01_wire_eor_dump_phase.
+
+Theorem C01_wire_eor_is_lax_eor : forall u, is_Some (lax_eor_fam u) <-> BgpModel.lax_eor u = true.
+Proof. exact lax_eor_fam_some. Qed.
+Print Assumptions C01_wire_eor_is_lax_eor.
+
+(* a history on the wire: 10.9.0.0/16 announced for IPv4 MULTICAST, an UPDATE whose MP_UNREACH_NLRI
+   holds that prefix followed by one of 200 bits (does not decode: nothing happens), then the
+   withdrawal: the entry is shown active, then withdrawn, by the pipeline and by the ideal RIB *)
+Example C01_wire_example :
+  BgpModel.decode BgpModel.Code raw_bad_tail = None /\
+  (exists a, raw_upd raw_mc_withdraw = Some (UGen None false 0 [] a [(2, pfx_10_9)])%N) /\
+  nth_error (run_world raw_example).2 5%nat = Some (WoEntries [(3%N, true, attrs_code raw_mc_attrs)]) /\
+  (exists a, last (run_world raw_example).2 = Some (WoEntries [(3%N, false, a)]) /\
+             last (run_sworld raw_example).2 = Some (SoEntries [((0%N, pA), false, a)])).
+Proof. exact raw_example_ok. Qed.
